@@ -6,6 +6,7 @@ import (
 	"bytes"
 	"crypto/md5"
 	"encoding/hex"
+	"math"
 	"net"
 	"net/http"
 	"slices"
@@ -637,6 +638,11 @@ func extractMaxAge(cacheControl string) time.Duration {
 		name, value, ok := strings.Cut(part, "=")
 		if ok && strings.EqualFold(strings.TrimSpace(name), "max-age") {
 			if seconds, err := strconv.Atoi(strings.TrimSpace(value)); err == nil && seconds > 0 {
+				// clamp instead of letting seconds*1e9 wrap into a tiny or
+				// negative lifetime.
+				if int64(seconds) > math.MaxInt64/int64(time.Second) {
+					return time.Duration(math.MaxInt64)
+				}
 				return time.Duration(seconds) * time.Second
 			}
 		}
